@@ -18,6 +18,7 @@ class SpecOut:
         self.assume = []      # z3 Bools
         self.undef = {}       # scalar name -> z3 Bool / True: comparison masked when undefined
         self.intrinsic = False
+        self.trap = None      # z3 Bool: states in which the instruction traps (lifted as an intrinsic); None = never
         self.accessed = []    # (addr64, nbytes, guard)
         self.loop_bound = None
         self.classes = None   # optional partition of the state space: name -> z3 Bool
@@ -72,7 +73,7 @@ def analyse(arch, endian, item, specfn, k=4, timeout_ms=20000, observables=None,
         return res
     nbytes = len(item["bytes"]) // 2
     want_n = item.get("n_instructions", 1)
-    if lift["length"] != nbytes or len(lift["instructions"]) != want_n:
+    if not item.get("skip_shape") and (lift["length"] != nbytes or len(lift["instructions"]) != want_n):
         res.update(status="mismatch", detail=f"lifted length {lift['length']} / {len(lift['instructions'])} instruction(s), expected {nbytes} / {want_n}")
         return res
     ctx = il2smt.Ctx(endian=endian)
@@ -105,7 +106,10 @@ def analyse(arch, endian, item, specfn, k=4, timeout_ms=20000, observables=None,
         res.update(status="sorterr", detail=f"IL ill-sorted: {e}"); return res
     except NotImplementedError as e:
         res.update(status="nospec", detail=str(e)); return res
-    if spec.intrinsic or allintr:
+    trap_il = z3.Or(*[(z3.BoolVal(True) if g is True else g) for (g, _, _) in allintr]) if allintr else z3.BoolVal(False)
+    if spec.trap is not None and not spec.intrinsic:
+        pass      # conditional trap: compared below as an observable
+    elif spec.intrinsic or allintr:
         ok = bool(spec.intrinsic) == bool(allintr)
         res.update(status="intrinsic-ok" if ok else "intrinsic-mismatch",
                    detail="" if ok else f"spec intrinsic={spec.intrinsic} IL intrinsics={len(allintr)}")
@@ -115,7 +119,20 @@ def analyse(arch, endian, item, specfn, k=4, timeout_ms=20000, observables=None,
     except SortError as e:
         res.update(status="sorterr", detail=f"successor: {e}"); return res
     assume = list(spec.assume) + list(ctx.c04_assumptions)
+    if item.get("nowrap32"):
+        # 32-bit targets: the IL executor's memory is 64-bit, hardware wraps at 2^32; ranges touching the top are outside the claim
+        for r_ in runs:
+            for (g, a, n_) in r_.events.loads:
+                assume.append(z3.ULE(a, z3.BitVecVal(0xfffffff0, 64)) if g is True else z3.Implies(g, z3.ULE(a, z3.BitVecVal(0xfffffff0, 64))))
+            for (g, a, v_) in r_.events.stores:
+                assume.append(z3.ULE(a, z3.BitVecVal(0xfffffff0, 64)) if g is True else z3.Implies(g, z3.ULE(a, z3.BitVecVal(0xfffffff0, 64))))
     A = z3.And(*assume) if assume else z3.BoolVal(True)
+    trap_diff = None
+    if spec.trap is not None and not spec.intrinsic:
+        trap_diff = trap_il != spec.trap
+        A_notrap = z3.And(A, z3.Not(spec.trap), z3.Not(trap_il))
+    else:
+        A_notrap = A
     # 1. completion (unwinding assertion) and faults
     verdicts = {}
     tsolve = 0.0
@@ -177,6 +194,10 @@ def analyse(arch, endian, item, specfn, k=4, timeout_ms=20000, observables=None,
             diffs["pc"] = z3.Or(nosucc, pc_il != spec.next_pc)
     if ex1 is not None:
         diffs["successors-not-exclusive"] = z3.Not(ex1)
+    if trap_diff is not None:
+        # values are compared only in non-trapping states; the trap condition itself is an observable
+        diffs = {n_: z3.And(z3.Not(spec.trap), z3.Not(trap_il), d_) for n_, d_ in diffs.items()}
+        diffs["trap"] = trap_diff
     v, m, dt = solve.check([A, reach, z3.Or(*diffs.values())], timeout_ms); tsolve += dt
     res["solver_s"] = tsolve
     if v == solve.UNSAT:
@@ -207,7 +228,7 @@ def analyse(arch, endian, item, specfn, k=4, timeout_ms=20000, observables=None,
     groups = {"flags": [], "value": [], "pc": []}
     for n, dterm in diffs.items():
         if n in flag_names: groups["flags"].append(dterm)
-        elif n in ("pc", "successors-not-exclusive"): groups["pc"].append(dterm)
+        elif n in ("pc", "successors-not-exclusive", "trap"): groups["pc"].append(dterm)
         else: groups["value"].append(dterm)
     classes = spec.classes or {"any": z3.BoolVal(True)}
     cons = []
